@@ -274,6 +274,71 @@ func runC13(c *hx.Ctx) {
 			}
 		}
 	}
+	// ---- interleavings of the CONFIGURATION operations (oracle only): a long-lived client P with two
+	// overlapping lookups, each held just before it reads (rcfg) or just before it writes (wcfg) the
+	// stored head, and a second client Q sharing the configuration that stores a head in between —
+	// on the same log (the stored size must never go back) or on the other side of a fork (P must
+	// notice after its lost compare-and-swap)
+	for b := 0; b < c.N(40); b++ {
+		sc := forkBase(r)
+		for sc.K < 2 {
+			sc = forkBase(r)
+		}
+		w := gen.NewSumWorld(sc.Seed, sc.NA, sc.NB, sc.K, -1)
+		latest := gen.SumName + "/latest"
+		qside := 0
+		note := "cfg-interleave-growth"
+		if b%2 == 1 {
+			qside, note = 1, "cfg-interleave-fork"
+		}
+		n0 := 1 + r.Intn(sc.K)
+		sz := func(side int) int {
+			lim := w.Logs[side].Len()
+			if lim <= n0 {
+				return lim
+			}
+			return n0 + 1 + r.Intn(lim-n0)
+		}
+		used := map[string]bool{}
+		pick := func(side, n int) (string, string) {
+			for try := 0; try < 30; try++ {
+				p, v := sumLookupOn(r, w, side, n)
+				if !used[p] {
+					used[p] = true
+					return p, v
+				}
+			}
+			return sumLookupOn(r, w, side, n)
+		}
+		p0, v0 := pick(0, n0)
+		sc.Steps = append(sc.Steps, gen.SumStep{Client: 0, View: gen.HonestView(0, int64(n0)), Path: p0, Vers: v0})
+		s1, s2, s3 := sz(0), sz(0), sz(qside)
+		p1, v1 := pick(0, s1)
+		p2, v2 := pick(0, s2)
+		p3, v3 := pick(qside, s3)
+		sc.Steps = append(sc.Steps,
+			gen.SumStep{Client: 0, View: gen.HonestView(0, int64(s1)), Path: p1, Vers: v1},
+			gen.SumStep{Client: 0, View: gen.HonestView(0, int64(s2)), Path: p2, Vers: v2},
+			gen.SumStep{Client: 1, View: gen.HonestView(qside, int64(s3)), Path: p3, Vers: v3})
+		for _, kinds := range [][2]string{{"rcfg", "rcfg"}, {"wcfg", "wcfg"}, {"rcfg", "wcfg"}, {"wcfg", "rcfg"}} {
+			for _, rel := range [][]int{{1, 2}, {2, 1}} {
+				f := sc.Clone()
+				f.Note = note
+				f.Par = &gen.SumPar{Step: 1, Kind: kinds[0], Path: latest, Count: 2,
+					More: []gen.SumPark{{Step: 2, Kind: kinds[1], Path: latest}}, Release: rel}
+				run := sumDo(c, f, nil, false)
+				for _, res := range run.Results[1:] {
+					c.Count("cfg-interleave:" + note + ":" + res.Class)
+				}
+			}
+		}
+		// two parties only: P held between its ReadConfig and its WriteConfig while Q stores a head
+		f := sc.Clone()
+		f.Note = note + "-2"
+		f.Steps = []gen.SumStep{sc.Steps[0], sc.Steps[1], sc.Steps[3]}
+		f.Par = &gen.SumPar{Step: 1, Kind: "wcfg", Path: latest, Count: 1}
+		sumDo(c, f, nil, false)
+	}
 	// ---- interference: another process rewrites the configuration between ReadConfig and WriteConfig
 	for b := 0; b < c.N(200); b++ {
 		sc := forkBase(r)
